@@ -493,6 +493,17 @@ func raster(r *vlib.Run) {
 		rast := &model2d.Rasterizer{Scale: 20 + 60*rng.Float64(), Subsamples: 1 + rng.Intn(8)}
 		p := []int{1, 2, 5, 16}[rng.Intn(4)]
 		wit := map[string]interface{}{"solid": s.desc, "scale": rast.Scale, "subsamples": rast.Subsamples, "gomaxprocs": p}
+		if rng.Intn(2) == 0 {
+			// a fixed canvas (documented Bounds override) that crops the shape on some sides and pads it on others
+			w, h := s.max.X-s.min.X, s.max.Y-s.min.Y
+			lo := model2d.XY(s.min.X+w*(rng.Float64()*0.9-0.3), s.min.Y+h*(rng.Float64()*0.9-0.3))
+			hi := model2d.XY(s.max.X-w*(rng.Float64()*0.9-0.3), s.max.Y-h*(rng.Float64()*0.9-0.3))
+			if hi.X-lo.X > 0.2*w && hi.Y-lo.Y > 0.2*h {
+				rast.Bounds = model2d.NewRect(lo, hi)
+				wit["canvas"] = fmt.Sprint(lo, hi)
+				c.Count("raster.cases_with_canvas_override", 1)
+			}
+		}
 		var ref, got *image.Gray
 		withProcs(1, func() { ref = rast.RasterizeSolid(s) })
 		pix := 1.0 / rast.Scale
@@ -515,6 +526,29 @@ func raster(r *vlib.Run) {
 				if ref.Pix[i] != got.Pix[i] {
 					w := ref.Bounds().Dx()
 					c.Violation("model2d.Rasterizer.RasterizeSolidFilter/same-image", fmt.Sprintf("pixel (%d,%d) differs with filter %s: unfiltered %d, filtered %d", i%w, i/w, name, ref.Pix[i], got.Pix[i]), wit)
+					return
+				}
+			}
+		}
+		// the library's own filtered rasterisers of a collider against the unfiltered rasterisation
+		// of the same even-odd solid (only when the filter's circle test cannot be at a tie: the
+		// outline is a polygon in general position, ties have measure zero)
+		if c.Index%2 == 0 {
+			poly := model2d.NewMeshPolar(func(t float64) float64 { return 0.5 + 0.3*math.Sin(3*t+float64(c.Index)) }, 40+rng.Intn(60))
+			coll := model2d.MeshToCollider(poly)
+			var a, b *image.Gray
+			withProcs(1, func() { a = rast.RasterizeSolid(model2d.NewColliderSolid(coll)) })
+			withProcs(p, func() { b = rast.RasterizeColliderSolid(coll) })
+			c.Count("raster.comparisons", 1)
+			c.Count("raster.collider_solid_comparisons", 1)
+			if a.Bounds() != b.Bounds() {
+				c.Violation("model2d.Rasterizer.RasterizeColliderSolid/same-image", fmt.Sprintf("image sizes differ: %v vs %v", a.Bounds(), b.Bounds()), wit)
+				return
+			}
+			for i := range a.Pix {
+				if a.Pix[i] != b.Pix[i] {
+					w := a.Bounds().Dx()
+					c.Violation("model2d.Rasterizer.RasterizeColliderSolid/same-image", fmt.Sprintf("pixel (%d,%d): unfiltered %d, RasterizeColliderSolid %d", i%w, i/w, a.Pix[i], b.Pix[i]), wit)
 					return
 				}
 			}
